@@ -236,7 +236,8 @@ int QSexact_infeasible_test (mpq_QSdata * p,
 			mpq_set(__lres[__lsz],mpq_ILL_MAXDOUBLE);\
 		else if(mpf_cmp(__larray[__lsz],mpf_ILL_MINDOUBLE)==0)\
 			mpq_set(__lres[__lsz],mpq_ILL_MINDOUBLE);\
-		mpq_set_f(__lres[__lsz],__larray[__lsz]);\
+		else\
+			mpq_set_f(__lres[__lsz],__larray[__lsz]);\
 	}\
 	__lres;})
 
